@@ -137,6 +137,28 @@ def check(run):
     cc = f('close_connection')
     run.check(len(w) == 1 and cc.usr in bound_fn(er, w[0]) and 'm_client_connection' in q.render(er, w[0]), 'R4', 'error-then-close', H + '::error', er.loc(), 'the error response is not written to the client with close_connection as its completion', 'written to the client, then the connection is closed')
 
+    run.clause('(5) the host/port separator of the absolute URI is searched from the END of the authority (a forward search for \':\' stops inside a bracketed IPv6 literal)')
+    colon = []
+    for c in fr.calls():
+        cn = (q.callee_name(c) or '').split('::')[-1]
+        if cn not in ('find', 'rfind', 'find_first_of', 'find_last_of') or not c.get('args'):
+            continue
+        nd = q.strip_casts(c['args'][0])
+        is_colon = (nd.get('k') in ('char', 'int') and nd.get('v') in (58, ':')) or (nd.get('k') == 'str' and nd.get('v') == ':')
+        if is_colon:
+            colon.append((cn, c))
+    if not colon:
+        run.unrecognised('R4', 'authority-split', H + '::forward_request', fr.loc(), 'no search for the host/port separator found in forward_request (parsing idiom changed)')
+    for cn, c in colon:
+        start = q.strip_casts(c['args'][1]) if len(c['args']) > 1 else None
+        if cn in ('rfind', 'find_last_of'):
+            run.ok('R4', 'authority-split', H + '::forward_request', fr.loc(c), 'separator = last \':\' (%s)' % q.render(fr, c)[:80])
+        elif start is None or start.get('k') in ('int', 'defarg') or q.int_value(start) is not None:
+            run.violation('R4', 'authority-split', H + '::forward_request', fr.loc(c),
+                          'the host/port separator is the FIRST \':\' after the scheme (%s): for an IPv6 literal such as http://[fd00::3]:8000/ it lies inside the brackets, the host handed to the resolver is garbage and the client gets 503 for a reachable origin' % q.render(fr, c)[:80])
+        else:
+            run.unrecognised('R4', 'authority-split', H + '::forward_request', fr.loc(c), 'forward search for \':\' from a computed position (%s): cannot tell whether it skips a bracketed literal' % q.render(fr, c)[:80])
+
     run.clause('(4) malformed or non-absolute requests close the client connection')
     thr = [n for n in fr.all_nodes() if n['k'] == 'throw']
     okt = any(any('http://' in q.render(fr, a) and p for a, p in q.guards_at(fr, n)) for n in thr)
